@@ -26,6 +26,8 @@ PROPS = {
         models=[
             dict(name="once", pkg="./oncex", test="TestOnce", coq_mod="Once.Spec", run_check="run_check_once",
                  corpus="once", quick_n=2500, thorough_n=250000, nontrivial=nt_once,
+                 # the same correspondence in the free-running regime (Once and MemoizeFunc), in every check (harness/oncex/free_test.go)
+                 free_search=dict(test="TestOnceFree", props={"C16": [5]}), free_always=True,
                  rule="implementation-driven random gate-level histories of one promise.Once (Resolve calls incl. pre-cancelled contexts, "
                       "critical sections of callers and of the callback goroutine one at a time, context cancellations of waiters and of "
                       "the spawner incl. the starter of a running callback while others wait, callback outcomes value / error / Canceled / "
